@@ -11,7 +11,10 @@ package main
 
 import (
 	"fmt"
+	"go/constant"
+	"go/token"
 	"go/types"
+	"sort"
 	"strings"
 
 	"golang.org/x/tools/go/ssa"
@@ -175,6 +178,64 @@ func runC15(c *Ctx, pr *PropertyRun) {
 			if res.Runs < 10 {
 				rep.Unresolved("table " + spec.Name + " has fewer than 10 rows")
 			}
+		}
+	}
+	// replay depth accounting: when the replay recurses through a helper that
+	// carries a depth counter (and may refuse), it accepts every tree the
+	// capture accepts: an element at a level the capture admits, with
+	// non-element children and with element children the capture admits too,
+	// is written out exactly as at level 0
+	if mx != nil && raw != nil {
+		if mh := depthHelper(c, mx); mh != nil {
+			var ch *ssa.Function
+			if um != nil {
+				ch = depthHelper(c, um)
+			}
+			levels := depthLevels(mh, ch)
+			accepts := func(level int64) bool {
+				if ch == nil {
+					return true
+				}
+				spec := c15Capture(c, ch, raw, 0)
+				baseArgs := spec.Args
+				spec.Args = func(in *Interp) []Val { return append(baseArgs(in), kInt(level)) }
+				out := ""
+				spec.Check = func(env *OracleEnv, obs *Observation) (bool, string, bool) {
+					out = "error"
+					if obs.Panic == nil {
+						if k, isK := obs.Ret.(Konst); isK && k.V == nil {
+							out = "ok"
+						}
+					}
+					return true, "", true
+				}
+				runDTX(c, spec)
+				return out == "ok"
+			}
+			for _, lv := range levels {
+				lv := lv
+				if !accepts(lv) {
+					continue
+				}
+				childOK := accepts(lv + 1)
+				spec := c15MarshalAt(c, mh, raw, 1, func() Val { return kInt(lv) }, func(seq []string) bool {
+					if childOK {
+						return false
+					}
+					for _, s := range seq[1:] {
+						if strings.HasPrefix(s, "StartElement:") {
+							return true // the capture refuses an element at the next level
+						}
+					}
+					return false
+				})
+				spec.Name = fmt.Sprintf("replay at nesting level %d", lv)
+				res := runDTX(c, spec)
+				reportDTX(c, rep, spec, res, spec.Name)
+				rep.Role("replay-depth-table")
+			}
+		} else {
+			rep.Note("the replay does not recurse through a helper with a depth counter: replay depth accounting not applicable")
 		}
 	}
 	// Decode: NewTokenDecoder(val.TokenReader())
@@ -396,7 +457,15 @@ func xmlEndModel(in *Interp, site ssa.CallInstruction, name string, args []Val) 
 }
 
 func c15Marshal(c *Ctx, mx *ssa.Function, raw *types.Named) DTXSpec {
+	return c15MarshalAt(c, mx, raw, 2, nil, nil)
+}
+
+// c15MarshalAt: the replay table of fn. last, when set, builds the trailing
+// argument (MarshalXML: a start element; a recursion helper: its depth
+// counter); skip, when set, excludes trees that cannot have been captured.
+func c15MarshalAt(c *Ctx, mx *ssa.Function, raw *types.Named, treeDepth int, last func() Val, skip func(seq []string) bool) DTXSpec {
 	var want []string
+	skipped := false
 	return DTXSpec{Name: "RawXMLValue.MarshalXML", Entry: mx,
 		Setup: func(in *Interp) {
 			in.Models = append(in.Models, xmlEndModel, func(in *Interp, site ssa.CallInstruction, name string, args []Val) (Val, bool) {
@@ -417,18 +486,26 @@ func c15Marshal(c *Ctx, mx *ssa.Function, raw *types.Named) DTXSpec {
 		},
 		Args: func(in *Interp) []Val {
 			startT := c.P.lookupType("encoding/xml", "StartElement")
+			lastArg := zeroOf(startT)
+			if last != nil {
+				lastArg = last()
+			}
+			skipped = false
 			if in.truth(LazyBool{"marshal-only"}) {
 				st := zeroOf(raw).(Struct)
 				st.F[2].Set(Iface{Dyn: types.Typ[types.String], V: kStr("payload")})
 				want = []string{"Encode(\"payload\")"}
-				return []Val{Ptr{&Cell{V: st, T: raw}}, Opaque{"encoder", mx.Params[1].Type()}, zeroOf(startT)}
+				return []Val{Ptr{&Cell{V: st, T: raw}}, Opaque{"encoder", mx.Params[1].Type()}, lastArg}
 			}
-			tree, _, seq := buildTree(in, raw, "r", 2)
+			tree, _, seq := buildTree(in, raw, "r", treeDepth)
 			want = nil
 			for _, s := range seq {
 				want = append(want, "EncodeToken("+s+")")
 			}
-			return []Val{Ptr{&Cell{V: tree, T: raw}}, Opaque{"encoder", mx.Params[1].Type()}, zeroOf(startT)}
+			if skip != nil && skip(seq) {
+				skipped = true
+			}
+			return []Val{Ptr{&Cell{V: tree, T: raw}}, Opaque{"encoder", mx.Params[1].Type()}, lastArg}
 		},
 		Observe: func(in *Interp, res Val, pan *panicOutcome) string {
 			if pan != nil {
@@ -442,6 +519,9 @@ func c15Marshal(c *Ctx, mx *ssa.Function, raw *types.Named) DTXSpec {
 		},
 		Check: func(env *OracleEnv, obs *Observation) (bool, string, bool) {
 			got := effectStrings(obs.Trace)
+			if skipped {
+				return true, "", true
+			}
 			if obs.Panic != nil {
 				return false, "no panic", true
 			}
@@ -527,6 +607,45 @@ func c15Reader(c *Ctx, trd, tokFn *ssa.Function, raw *types.Named) DTXSpec {
 
 // depthHelper: the function the capture delegates to that takes the decoder,
 // the start element and an integer (the depth counter), and calls itself.
+// depthLevels: the nesting levels worth examining: 0, 1 and the neighbourhood
+// of every integer constant a depth helper compares with.
+func depthLevels(fns ...*ssa.Function) []int64 {
+	set := map[int64]bool{0: true, 1: true}
+	for _, fn := range fns {
+		if fn == nil {
+			continue
+		}
+		eachInstr(fn, func(b *ssa.BasicBlock, in ssa.Instruction) {
+			bo, ok := in.(*ssa.BinOp)
+			if !ok {
+				return
+			}
+			switch bo.Op {
+			case token.LSS, token.LEQ, token.GTR, token.GEQ, token.EQL, token.NEQ:
+			default:
+				return
+			}
+			for _, op := range []ssa.Value{bo.X, bo.Y} {
+				if k, ok := op.(*ssa.Const); ok && k.Value != nil && k.Value.Kind() == constant.Int {
+					if v, ok := constant.Int64Val(k.Value); ok {
+						for _, d := range []int64{-2, -1, 0, 1} {
+							if v+d >= 0 && v+d < 1<<40 {
+								set[v+d] = true
+							}
+						}
+					}
+				}
+			}
+		})
+	}
+	var out []int64
+	for v := range set {
+		out = append(out, v)
+	}
+	sort.Slice(out, func(i, j int) bool { return out[i] < out[j] })
+	return out
+}
+
 func depthHelper(c *Ctx, um *ssa.Function) *ssa.Function {
 	var found *ssa.Function
 	eachCall(um, func(site ssa.CallInstruction) {
